@@ -355,7 +355,50 @@ def op_valeq(case, pm):
     return res
 
 
-OPS = {'rt': op_rt, 'mc': op_mc, 'fold': op_fold, 'compile': op_compile, 'valeq': op_valeq}
+def _identifiers(tree):
+    out = []
+    for n in ast.walk(tree):
+        for f in ('id', 'arg', 'name', 'asname', 'attr', 'rest'):
+            v = getattr(n, f, None)
+            if isinstance(v, (str, unicode)) and f in getattr(n, '_fields', ()):
+                out.append(v)
+        if isinstance(n, (ast.Global,)) or n.__class__.__name__ == 'Nonlocal':
+            out.extend(n.names)
+        if n.__class__.__name__ == 'arguments':
+            for f in ('vararg', 'kwarg'):
+                v = getattr(n, f, None)
+                if isinstance(v, (str, unicode)):
+                    out.append(v)
+    return out
+
+
+def op_frozen(case, pm):
+    """C09 in this interpreter: a tainted module keeps every identifier and gets no new statement"""
+    src = get_src(case)
+    try:
+        tree = ast.parse(src)
+        compile(src, 'frozen_case', 'exec', dont_inherit=True)
+    except Exception:
+        return {'status': 'skip', 'reason': 'uncompilable here'}
+    try:
+        out = pm.minify(src, **make_kwargs(pm, case.get('opts') or {}))
+        o = out
+        if PY2 and isinstance(o, unicode):
+            o = o.encode('utf-8')
+        tree2 = ast.parse(o)
+    except Exception as e:
+        return {'status': 'error', 'exc': exc_info(e)}
+    a, b = _identifiers(tree), _identifiers(tree2)
+    res = {'status': 'held', 'violations': [], 'out': out[:400]}
+    if sorted(a) != sorted(b):
+        gone = sorted(set(a) - set(b))[:6]
+        new = sorted(set(b) - set(a))[:6]
+        res['status'] = 'violation'
+        res['violations'].append({'kind': 'identifiers-changed', 'detail': 'names only in the input %r, names only in the output %r' % (gone, new)})
+    return res
+
+
+OPS = {'frozen': op_frozen, 'rt': op_rt, 'mc': op_mc, 'fold': op_fold, 'compile': op_compile, 'valeq': op_valeq}
 
 
 def main():
